@@ -109,6 +109,27 @@ def s_repo(E, a, k):
     return E.loader.load(a[0])
 
 
+def s_abstract_int(E, a, k):
+    name, lo, hi = a[0], a[1], a[2]
+    key = name + "(" + ",".join(E.term_key(E.force(x)) for x in a[3:]) + ")"
+    import hashlib
+    t = z3.Int("abs_%s_%s" % (name, hashlib.sha1(key.encode()).hexdigest()[:12]))
+    E.ps.add(z3.And(t >= lo, t <= hi))
+    E.trusted.add("abstract contract: %s(args) is some integer in [%d, %d] determined by its arguments" % (name, lo, hi))
+    return SInt(t, None, lo, hi)
+
+
+def s_new_object(E, a, k):
+    from .interp import ClassValue
+    cls = E.force(a[0])
+    if not isinstance(cls, ClassValue):
+        raise Unsupported("new_object of non-class")
+    o = E.new_heap(SObject(cls))
+    for kk, v in k.items():
+        o.attrs[kk] = v
+    return o
+
+
 def members():
     m = {}
     for n in ("BinStr", "HexStr", "IntRange", "RealRange", "Bool", "Choice"):
@@ -126,5 +147,9 @@ def members():
     m["close"] = Builtin("close", s_close)
     m["outcome_close"] = Builtin("outcome_close", s_close)
     m["repo"] = Builtin("repo", s_repo)
+    m["new_object"] = Builtin("new_object", s_new_object)
+    m["abstract_int"] = Builtin("abstract_int", s_abstract_int)
     m["AssumptionFailed"] = None
+    for n in ("NATIVE_ABSTRACT", "NATIVE_OPAQUE", "NATIVE_UF"):
+        m[n] = SDict({})
     return m
